@@ -240,6 +240,7 @@ func checkC17(c *Ctx) {
 	checkNamePatterns(c, "C17.R4.name-patterns", pk)
 	checkListSplits(c, "C17.R6.list-splits", pk)
 	checkMultiNameFields(c, "C17.R6.multi-name-fields", pk)
+	checkPostDeclsCollected(c, "C17.R6.discovered-collected", pk)
 	checkBuilderFields(c, "C17.R6.builder-fields", pk)
 	checkArgumentRoles(c, "C17.R6.argument-roles", pk, "codescan", 3)
 	checkAliasExpansionGuard(c, "C17.R1.alias-recursion", pk)
@@ -1315,5 +1316,65 @@ func checkMultiNameFields(c *Ctx, rule string, pk *packages.Package) {
 	}
 	if n < 3 {
 		c.Unk(rule, "codescan › callers of parseJSONTag that name fields", "", fmt.Sprintf("%d found, expected the model, parameter and response builders", n))
+	}
+}
+
+
+// checkPostDeclsCollected: a schemaBuilder records in postDecls the declarations it referenced by
+// $ref; whoever creates one and builds with it must collect them, or the document ends up with a
+// $ref to a definition nobody emits.
+func checkPostDeclsCollected(c *Ctx, rule string, pk *packages.Package) {
+	c.Rule(rule, "every function that creates a schemaBuilder and builds with it reads its postDecls afterwards", 8)
+	info := pk.TypesInfo
+	n := 0
+	ord := map[string]int{}
+	for _, fd := range load.AllFuncs(pk) {
+		fd := fd
+		// locals initialised with a schemaBuilder literal (value or pointer)
+		ast.Inspect(fd.Body, func(nd ast.Node) bool {
+			as, ok := nd.(*ast.AssignStmt)
+			if !ok || len(as.Lhs) != 1 || len(as.Rhs) != 1 {
+				return true
+			}
+			id, ok := as.Lhs[0].(*ast.Ident)
+			if !ok {
+				return true
+			}
+			rhs := ast.Unparen(as.Rhs[0])
+			if un, isUn := rhs.(*ast.UnaryExpr); isUn && un.Op == token.AND {
+				rhs = un.X
+			}
+			cl, ok := rhs.(*ast.CompositeLit)
+			if !ok || goan.NamedName(info.TypeOf(cl)) != "schemaBuilder" {
+				return true
+			}
+			obj := info.ObjectOf(id)
+			// the enclosing block: uses after the literal
+			builds, collects := false, false
+			ast.Inspect(fd.Body, func(m ast.Node) bool {
+				se, ok := m.(*ast.SelectorExpr)
+				if !ok || se.Pos() < as.End() || !identIs(info, se.X, obj) {
+					return true
+				}
+				switch se.Sel.Name {
+				case "buildFromType", "Build", "buildFromDecl":
+					builds = true
+				case "postDecls":
+					collects = true
+				}
+				return true
+			})
+			if !builds {
+				return true
+			}
+			n++
+			ord[load.FuncName(fd)]++
+			c.Check(collects, rule, fmt.Sprintf("codescan.%s › schemaBuilder #%d", load.FuncName(fd), ord[load.FuncName(fd)]), c.posOf(pk, as.Pos()), "postDecls read after building",
+				"a schemaBuilder is created and used to build a schema, but the declarations it discovered (postDecls) are dropped: a type only referenced from here gets a $ref and no definition")
+			return true
+		})
+	}
+	if n < 8 {
+		c.Unk(rule, "codescan › local schemaBuilders", "", fmt.Sprintf("%d found", n))
 	}
 }
